@@ -35,6 +35,8 @@ pub struct NodeB {
     pub prevote_grants: HashSet<u64>,
     // ---- C17
     pub transfer_ticks: (u64, usize),
+    // ---- C13: snapshots sent and neither reported nor acknowledged
+    pub snap_out: HashMap<u64, u64>,
 }
 
 #[derive(Default)]
@@ -158,6 +160,7 @@ impl Mon {
         nb.u_true = 0;
         nb.caps.clear();
         nb.min_anchor.clear();
+        nb.snap_out.clear();
         nb.prevote_grants.clear();
         nb.transfer_ticks = (0, 0);
         if !first && nb.pending_at_crash {
@@ -245,6 +248,7 @@ impl Mon {
             nb.lead_tail = post.last_index.saturating_sub(1);
             nb.u_true = 0;
             nb.min_anchor.clear();
+            nb.snap_out.clear();
             nb.transfer_ticks = (0, 0);
         }
 
@@ -662,6 +666,24 @@ impl Mon {
             CallKind::ReportSnapshot(f, _) | CallKind::ReportUnreachable(f) => Some(*f),
             _ => None,
         };
+        // ghost of outstanding snapshots: cleared by a status report or an acknowledgement at/after it
+        match kind {
+            CallKind::ReportSnapshot(f, _) => {
+                self.b.nb[ni].snap_out.remove(f);
+            }
+            CallKind::Step(m) if m.get_msg_type() == MessageType::MsgAppendResponse && !m.reject => {
+                if let Some(s) = self.b.nb[ni].snap_out.get(&m.from).copied() {
+                    if m.index >= s {
+                        self.b.nb[ni].snap_out.remove(&m.from);
+                    }
+                }
+            }
+            _ => {}
+        }
+        {
+            let ids: HashSet<u64> = post.prs.iter().map(|p| p.id).collect();
+            self.b.nb[ni].snap_out.retain(|k, _| ids.contains(k));
+        }
         let mut appends_with_entries: HashMap<u64, usize> = HashMap::new();
         let mut appends_any: HashMap<u64, usize> = HashMap::new();
         for m in msgs {
@@ -681,6 +703,19 @@ impl Mon {
                                     op,
                                 );
                             }
+                        }
+                    }
+                    if self.on(P13) {
+                        if let Some(s) = self.b.nb[ni].snap_out.get(&m.to).copied() {
+                            self.violation(
+                                "C13",
+                                "append-while-snapshot-outstanding",
+                                format!(
+                                    "leader {} sent an append (anchor {}) to {} while its snapshot at {} is neither reported nor acknowledged",
+                                    id, m.index, m.to, s
+                                ),
+                                op,
+                            );
                         }
                     }
                     *appends_any.entry(m.to).or_insert(0) += 1;
@@ -705,6 +740,7 @@ impl Mon {
                     }
                 }
                 MessageType::MsgSnapshot => {
+                    self.b.nb[ni].snap_out.insert(m.to, m.get_snapshot().get_metadata().index);
                     if self.on(P15) {
                         let p = pr_of(post, m.to);
                         let requested = p.map_or(false, |p| p.pending_request_snapshot != 0);
